@@ -156,5 +156,14 @@ End Run.
 
 Definition case := (cfg * list (rop * out float * option lobs))%type.
 Definition check (c : case) : option nat := first_mismatch_l (fst c) (init_lnd float) (init_lnd float) 0 (snd c).
-Definition is_legal (c : case) : bool := legal_l (fst c) (init_lnd float) (map (fun x => fst (fst x)) (snd c)).
+(* the hypotheses of the C04 theorems: the history is legal and the ghost flag is still set at the end
+   (no operation raised, every chosen point subdivided its simplex) *)
+Fixpoint final_l (c : cfg) (s : lnd float) (l : list rop) : lnd float :=
+  match l with
+  | [] => s
+  | x :: l' => final_l c (fst (mstep c s (to_op false x))) l'
+  end.
+Definition is_legal (c : case) : bool :=
+  legal_l (fst c) (init_lnd float) (map (fun x => fst (fst x)) (snd c)) &&
+  l_ok (final_l (fst c) (init_lnd float) (map (fun x => fst (fst x)) (snd c))).
 Definition trace (c : case) := trace_l (fst c) (init_lnd float) (map (fun x => fst (fst x)) (snd c)).
